@@ -18,6 +18,10 @@ KindsFor(d)  == IF AllKinds THEN {k \in OnlyKinds : d.cur <= MaxCur(k)}
 Render(d, kind) == LET h == Hash(d) + Len(kind) IN
   UniformTime(kind, (h \div 2) % 2) @@
   [style |-> (h \div 4) % 2, prefix |-> IF (h \div 8) % 3 = 0 THEN "/mirror/planet" ELSE "",
+   \* how the client builds its Datasource (own client / NewDatasource(client) / no client, BaseURL only) and
+   \* whether the server honours Accept-Encoding: gzip (compressed body + Content-Encoding) - both invisible to
+   \* the search: the state files read are the same
+   ds |-> <<"own", "new", "nilclient">>[((h \div 3 + Seed) % 3) + 1], gz |-> (h \div 5 + Seed) % 2,
    lay |-> (7 * h + Seed) % 384, lists |-> IF Cardinality(d.present) <= 300 THEN 1 ELSE 0,
    \* the changeset directory's seam: none (all minus one), above the newest (all equal), in the middle, after the oldest
    seam |-> CASE (h + Seed) % 4 = 0 -> 0 [] (h + Seed) % 4 = 1 -> d.cur + 1
@@ -50,7 +54,7 @@ Repeats(d, r, qs) == LET qa == 2 * d.cur + 1   sq == SetToSeq(qs)
                                 QueryRec(r, qa, 1), QueryRec(r, sq[1], 0)>>
 GenRecWith(d, r, qs) == LET c == CaseOf(d, 0, NoDevs) IN
   [kind |-> r.kind, skew |-> r.skew, style |-> r.style, prefix |-> r.prefix,
-   unit |-> r.unit, pauses |-> SetToSeq(r.pauses), pauselen |-> r.pauselen, lay |-> r.lay, lists |-> r.lists, seam |-> r.seam,
+   unit |-> r.unit, pauses |-> SetToSeq(r.pauses), pauselen |-> r.pauselen, lay |-> r.lay, lists |-> r.lists, seam |-> r.seam, ds |-> r.ds, gz |-> r.gz,
    present |-> SetToSeq(d.present), first |-> d.first, cur |-> d.cur,
    bound |-> c.bound, cap |-> Cap(c),
    current |-> CurrentFile(r, c),
